@@ -546,6 +546,47 @@ impl Sys {
                 }
             }
         }
+        // texture helpers ≡ the container reader applied to read() (plain and compressed files)
+        {
+            type TexKey = (String, usize, usize, Vec<u8>);
+            let key = |t: &mila::Texture| -> TexKey { (t.filename.clone(), t.width, t.height, t.pixel_data.clone()) };
+            for sfx in ["", self.cfg.sfx()] {
+                for (ext, which) in [("ctpk", 0), ("bch", 1), ("bcres", 2), ("tpl", 3)] {
+                    let p = format!("t/tex.{}{}", ext, sfx);
+                    let bytes = match w.fs.read(&p, false) {
+                        Ok(b) => b,
+                        Err(e) => {
+                            out.push(("typed:read-texture-file".into(), format!("read({:?}) failed: {}", p, e)));
+                            continue;
+                        }
+                    };
+                    let direct: Result<Vec<TexKey>, String> = match which {
+                        0 => mila::ctpk::read(&bytes).map(|v| v.iter().map(key).collect()).map_err(|e| e.to_string()),
+                        1 => mila::bch::read(&bytes).map(|v| v.iter().map(key).collect()).map_err(|e| e.to_string()),
+                        2 => mila::cgfx::read(&bytes).map(|v| v.iter().map(key).collect()).map_err(|e| e.to_string()),
+                        _ => mila::tpl::Tpl::extract_textures(&bytes).map(|v| v.iter().map(key).collect()).map_err(|e| e.to_string()),
+                    };
+                    let sorted = |mut v: Vec<TexKey>| {
+                        v.sort();
+                        v
+                    };
+                    let via_fs: Result<Vec<TexKey>, String> = match which {
+                        0 => w.fs.read_ctpk_textures(&p, false).map(|m| m.values().map(key).collect()).map_err(|e| e.to_string()),
+                        1 => w.fs.read_bch_textures(&p, false).map(|m| m.values().map(key).collect()).map_err(|e| e.to_string()),
+                        2 => w.fs.read_cgfx_textures(&p, false).map(|m| m.values().map(key).collect()).map_err(|e| e.to_string()),
+                        _ => w.fs.read_tpl_textures(&p, false).map(|v| v.iter().map(key).collect()).map_err(|e| e.to_string()),
+                    };
+                    let want_n = if which == 3 { 1 } else { 2 };
+                    match (direct, via_fs) {
+                        (Ok(d), Ok(f)) if sorted(d.clone()) == sorted(f.clone()) && d.len() == want_n => {}
+                        (d, f) => out.push((format!("typed:read_{}_textures", ext), format!("read_{}_textures({:?}) = {:?} but the container reader on read() gives {:?} (expected {} textures)", ext, p, f.map(|v| v.len()), d.map(|v| v.len()), want_n))),
+                    }
+                }
+            }
+            if w.fs.text_archive_format() as u8 != self.cfg.text_format() as u8 {
+                out.push(("typed:text_archive_format".into(), "text_archive_format() is not the game's text encoding".into()));
+            }
+        }
         // pack / arc helpers against the codec applied to read()
         if let Ok(bytes) = w.fs.read("t/pack.bin", false) {
             let a = w.fs.read_fe9_arc("t/pack.bin", false).map_err(|e| e.to_string());
@@ -565,7 +606,7 @@ impl Sys {
     }
 
     /// list (every glob of the family) and subdirectories of one directory against the layer model
-    fn check_dir(&self, w: &World, layers: &[Tree], dir: &str, loc: bool, globs: &[Option<&str>], out: &mut Vec<(String, String)>) {
+    fn check_dir(&self, w: &World, layers: &[Tree], dir: &str, loc: bool, globs: &[Option<&str>], seen: &mut std::collections::HashSet<String>, out: &mut Vec<(String, String)>) {
         let actual = self.actual(dir, loc);
         for g in globs.iter().cloned() {
             let got = w.fs.list(dir, g, loc).map_err(|e| e.to_string());
@@ -601,6 +642,10 @@ impl Sys {
                         out.push((format!("list:{}", kind), format!("list({:?}, {:?}, localized={}) = {:?}, expected {:?}", dir, g, loc, v, want)));
                     }
                     for p in v {
+                        // every listed path must exist — asked once per distinct path and state
+                        if !seen.insert(p.clone()) {
+                            continue;
+                        }
                         if !matches!(w.fs.exists(p, false), Ok(true)) {
                             out.push(("list:listed-path-does-not-exist".into(), format!("list({:?}, {:?}) contains {:?} but exists() denies it", dir, g, p)));
                         }
@@ -637,12 +682,13 @@ impl Sys {
         let layers = self.layers_for(top);
         let dirs = ["", "d", "d/", "d/e", "nope", "a", "t"];
         let globs: [Option<&str>; 5] = [None, Some("*"), Some("*.bin"), Some("**/*.txt"), Some("**/*")];
+        let mut seen = std::collections::HashSet::new();
         for dir in dirs {
             for loc in [false, true] {
                 if loc && dir.is_empty() {
                     continue;
                 }
-                self.check_dir(w, &layers, dir, loc, &globs, out);
+                self.check_dir(w, &layers, dir, loc, &globs, &mut seen, out);
             }
         }
     }
@@ -742,6 +788,7 @@ impl System for Sys {
             let snaps: Vec<Tree> = w.roots.iter().map(|r| snapshot(r)).collect();
             // queries AFTER the call on the same instance, judged against the layers as they are now on disk
             let mut post = Vec::new();
+            let mut seen_post = std::collections::HashSet::new();
             let layers_now: Vec<Tree> = snaps.clone();
             for loc in [false, true] {
                 if self.which != Which::C13 {
@@ -752,7 +799,7 @@ impl System for Sys {
                         if loc && d.is_empty() {
                             continue;
                         }
-                        self.check_dir(&w, &layers_now, d, loc, &globs, &mut post);
+                        self.check_dir(&w, &layers_now, d, loc, &globs, &mut seen_post, &mut post);
                     }
                 }
             }
@@ -867,6 +914,25 @@ fn typed_layer(cfg_loc: Loc, probe: &Config) -> Tree {
         t.insert("t/files.arc".into(), file(&b));
     }
     t.insert("t/notes.txt".into(), file(b"n"));
+    // texture containers (two textures each) for the typed texture helpers, plain and compressed
+    {
+        use vcore::ref_pix::{self as rp, Fmt};
+        use vcore::ref_tex::{self as rt, Container, TexSpec};
+        let texs3: Vec<TexSpec> = [(Fmt::Rgba8, "first"), (Fmt::L8, "second")].iter().enumerate().map(|(i, (f, n))| TexSpec { name: n.to_string(), width: 8, height: 8, format: f.code(), payload: rp::random_payload(*f, 8, 8, 0xF5 + i as u64, false), palette: vec![] }).collect();
+        let pal: Vec<u16> = (0..16u16).map(|i| 0x8000 | (i * 0x0421)).collect();
+        let texst: Vec<TexSpec> = vec![TexSpec { name: String::new(), width: 8, height: 4, format: rt::TPL_CI8, payload: (0..32).map(|i| (i % 16) as u8).collect(), palette: pal }];
+        for (c, ext) in [(Container::Ctpk, "ctpk"), (Container::Bch, "bch"), (Container::Cgfx, "bcres"), (Container::Tpl, "tpl")] {
+            let layouts = match c {
+                Container::Ctpk => rt::ctpk_layouts(),
+                Container::Bch => rt::bch_layouts(false),
+                Container::Cgfx => rt::cgfx_layouts(true),
+                Container::Tpl => rt::tpl_layouts(&[0]),
+            };
+            let bytes = rt::build(c, if c == Container::Tpl { &texst } else { &texs3 }, &layouts[0]).bytes;
+            t.insert(format!("t/tex.{}", ext), file(&bytes));
+            t.insert(format!("t/tex.{}{}", ext, probe.sfx()), file(&probe.encode_stored(&bytes)));
+        }
+    }
     let _ = cfg_loc;
     t
 }
@@ -905,6 +971,17 @@ fn lower_choices(probe: &Config) -> Vec<(&'static str, Tree)> {
         }
         locd.insert(cs.join("/"), file(b"lowLocalized"));
     }
+    // the localized form of the DIRECTORY d/e (not of a file in it) holds a file, while the
+    // unlocalized d/e exists nowhere in this layer
+    if let Some(p) = probe.localize("d/e") {
+        let cs = comps(&p);
+        if cs.join("/") != "d/e" {
+            for i in 1..=cs.len() {
+                locd.entry(cs[..i].join("/")).or_insert(Node::Dir);
+            }
+            locd.insert(format!("{}/inner.txt", cs.join("/")), file(b"in the localized directory"));
+        }
+    }
     // ... and the locations the OTHER languages of this game would address (a look-up must
     // never fall back to them)
     for lang in ref_loc::LANGS {
@@ -936,6 +1013,9 @@ fn lower_choices(probe: &Config) -> Vec<(&'static str, Tree)> {
         }
     }
     v.push(("other languages only", others));
+    // an INVALID compressed file at the path where a lower layer ("d/e/c+d/b.SFX") holds a valid
+    // one: the highest layer that has the file wins, so reading it must fail, not fall through
+    v.push(("invalid d/b.SFX", [("d".to_string(), Node::Dir), (format!("d/b{}", sfx), file(b"\x77 junk, not a stream"))].into_iter().collect()));
     v
 }
 
@@ -952,9 +1032,14 @@ pub fn configs(tier: Tier) -> Vec<Config> {
             Tier::Thorough => (3, 4),
         };
         out.push(mk(loc, lang, vec![typed.clone()], format!("{:?}/{:?} layers=[typed]", loc, lang), d1 + 1));
-        for (cn, c) in &choices {
-            out.push(mk(loc, lang, vec![typed.clone(), c.clone()], format!("{:?}/{:?} layers=[typed, {}]", loc, lang, cn), d2));
+        for (ci, (cn, c)) in choices.iter().enumerate() {
+            // the empty layer adds nothing over [typed]; the look-up-only layers (other languages,
+            // invalid stream) are judged by the per-state observers, one level less is enough
+            let depth = if ci == 0 || ci >= 7 { d2 - 1 } else { d2 };
+            out.push(mk(loc, lang, vec![typed.clone(), c.clone()], format!("{:?}/{:?} layers=[typed, {}]", loc, lang, cn), depth));
         }
+        // a higher lower-layer holding undecodable files over valid ones below
+        out.push(mk(loc, lang, vec![typed.clone(), choices[4].1.clone(), choices[8].1.clone()], format!("{:?}/{:?} layers=[typed, d/e/c+d/b.SFX, invalid d/b.SFX]", loc, lang), 2));
         // start from a populated top layer: temporary/backup-style siblings of every write path
         {
             let mut c = mk(loc, lang, vec![typed.clone(), choices[1].1.clone()], format!("{:?}/{:?} layers=[typed, a] top starts with .tmp/.bak/~ siblings", loc, lang), d1);
